@@ -21,8 +21,11 @@ Dump(b) == DumpFrom(b, 1)
 
 (* -------------------------------- hex_get_byte -------------------------------- *)
 At(s, i) == IF i >= 1 /\ i <= Len(s) THEN s[i] ELSE 0           \* index Len+1 is the NUL; anything beyond must never be asked for
-FirstAt(s, i, c) ==    \* strchr: least j >= i with s[j] = c, or 0
-  IF \E j \in i..Len(s) : s[j] = c THEN CHOOSE j \in i..Len(s) : s[j] = c /\ \A k \in i..(j-1) : s[k] # c ELSE 0
+FirstAt(s, i, c) ==    \* strchr: least j >= i with s[j] = c, or 0  (written without recursion: strings can be 64 Ki long)
+  IF \A j \in i..Len(s) : s[j] # c THEN 0
+  ELSE CHOOSE j \in i..Len(s) : s[j] = c /\ \A k \in i..(j - 1) : s[k] # c
+FirstNonBlank(s, i) ==  \* least j >= i where s[j] is not a blank other than newline; the terminating NUL (index Len+1) always qualifies
+  CHOOSE j \in i..(Len(s) + 1) : (~IsSpace(At(s, j)) \/ At(s, j) = NL) /\ \A k \in i..(j - 1) : IsSpace(At(s, k)) /\ At(s, k) # NL
 
 (* each function returns [ret, cur, hi]: the value returned, the new *p (0 = NULL, else 1-based index), and the highest index read *)
 Max(a, b) == IF a > b THEN a ELSE b
@@ -31,8 +34,8 @@ FromLine(s, i, hi) ==       \* label next_line with s non-NULL: skip to just aft
   LET q == FirstAt(s, i, Colon) IN
   Skip(s, IF q # 0 THEN q + 1 ELSE i, Max(hi, IF q # 0 THEN q ELSE Len(s) + 1))
 Skip(s, i, hi) ==
-  IF IsSpace(At(s, i)) THEN (IF At(s, i) = NL THEN FromLine(s, i + 1, Max(hi, i)) ELSE Skip(s, i + 1, Max(hi, i)))
-  ELSE Body(s, i, Max(hi, i))
+  LET j == FirstNonBlank(s, i) IN
+  IF At(s, j) = NL THEN FromLine(s, j + 1, Max(hi, j)) ELSE Body(s, j, Max(hi, j))
 Body(s, i, hi) ==
   LET pre == At(s, i) = 48 /\ At(s, i + 1) = 120                 \* "0x": s[1] is only looked at when s[0] = '0'
       hi1 == IF At(s, i) = 48 THEN Max(hi, i + 1) ELSE hi
